@@ -32,7 +32,8 @@ def check_refinement(ctx, sc, layouts, devs=()):
                     'CONSTANT Devs <- MCDevs\nINVARIANT PosInsideItem\nPROPERTY Refines\nPROPERTY PosAtItemEnd\n'
                     'PROPERTY RetryRepeatsRead\nCHECK_DEADLOCK FALSE\n' % (
                         extra, 'TRUE' if cansay else 'FALSE'))
-        r = tlc.run(sc.file(name + '.tla'), sc.file(name + '.cfg'), sc, workers=8, timeout=1200)
+        r = tlc.run(sc.file(name + '.tla'), sc.file(name + '.cfg'), sc, workers=8, timeout=1200, coverage=True)
+        ctx.require_actions(r, ['MArrive', 'StartPoll', 'Choose', 'ReadOk', 'ReadShort', 'ReadNone'], 'StreamMech Ends=%s' % (list(ends),))
         ctx.add_tlc('mech refines ideal, Ends=%s Extra=%d CanSay=%s' % (list(ends), extra, cansay), r)
         if not r.ok:
             raise core.Machinery('refinement run failed for %s: %s %s\n%s' % (ends, r.violated, r.errors[:2], r.out[-1500:]))
